@@ -19,7 +19,7 @@ var goGenerators = []string{"generator/go/gounions", "generator/go/randdata", "g
 
 func checkC01(w *World, r *Result) {
 	r.Explanation = "Decides, on the template language of the three Go generators (every Declaration content is abstractly evaluated from the generator source into a sketch: literal text, typed holes, repetitions, alternatives; 0 unclassified holes required): TPL-1 every instantiation (repetitions 0..2, thorough 0..3; every alternative chosen) parses as Go; TPL-3 no comma-separated list can contain an empty element; PRINTF every constant format has exactly the arguments it needs (no %!s(MISSING)/%!(EXTRA)); TPL-2 a stub type-check of the instantiations with holes declared as opaque types reports no literal selector on a user type and no literal identifier that neither the standard library nor a sibling template defines; AGR-C01a in randdata the declaration ID, the generated function name and the name used at call sites come from the same functionID, and the literal names of the basic generators equal go/types' names of their kinds; AGR-C01c every <T>ArrayToPQ / Scan<T>Array a template calls is declared by idArrayConverters(<T>) in the same function under no stronger condition (apart from the documented generateArrayConverter test); AGR-C01q type names are printed relative to the package the generated file belongs to; DECL-ID declaration IDs cover what their content reads (no two different declarations merged, none duplicated). Does not decide: well-formedness of hole fillers for every input (type strings of foreign generic types, identifier collisions between user types), import completeness after goimports. Known: NewDateFrom/.Time() convention required from the user package for local date types."
-	r.Rules = []string{"TPL-1", "TPL-3", "PRINTF", "TPL-2", "AGR-C01a", "AGR-C01c", "AGR-C01q", "DECL-ID", "GEN-ID"}
+	r.Rules = []string{"TPL-1", "TPL-3", "PRINTF", "TPL-2", "AGR-C01a", "AGR-C01c", "AGR-C01q", "AGR-C01u", "UTF8-SLICE", "DECL-ID", "GEN-ID", "PKG-ID"}
 	r.Assumptions = []string{"holes of class IDENT/TYPE are filled with well-formed Go identifiers/type expressions (they come from go/types)", "goimports adds/removes imports of the standard library and of the packages listed in the header"}
 	maxRep := 2
 	if w.Tier == "thorough" {
@@ -44,6 +44,9 @@ func checkC01(w *World, r *Result) {
 	checkRandNames(w, r)
 	checkConverterClosure(w, r)
 	checkQualifier(w, r)
+	checkUniqueSelectors(w, r)
+	utf8SliceRule(w, r, func(rel string) bool { return rel == "generator" || strings.HasPrefix(rel, "generator/go/") })
+	pkgIDRule(w, r, func(rel string) bool { return rel == "generator" || strings.HasPrefix(rel, "generator/go/") })
 	for _, rel := range goGenerators {
 		declIDRule(w, r, rel)
 		genIDRule(w, r, rel)
@@ -427,4 +430,96 @@ func isOwnNodeParam(w *World, fi *FuncInfo, name string) bool {
 		}
 	}
 	return false
+}
+
+// checkUniqueSelectors (AGR-C01u): `Select<T>By<Field>` is declared by two generators -- the foreign-key loops of
+// generatePrimaryTable / generateLinkTable (for a key under a UNIQUE constraint) and generateSelectByUniques (for the
+// column lists of Table.AdditionalUniqueCols). The two domains are disjoint because AdditionalUniqueCols drops
+// every single column that is a foreign key. Obligations: (1) the exclusion set is filled for every foreign key
+// (no condition on the store); (2) each foreign-key loop declares the selector under `key.IsUnique` only.
+// A narrower exclusion set declares the same function twice for the keys it leaves out.
+func checkUniqueSelectors(w *World, r *Result) {
+	au := w.MustFunc("analysis/sql.(Table).AdditionalUniqueCols")
+	info := au.Pkg.TypesInfo
+	fkMethod := w.MustFunc("analysis/sql.(Table).ForeignKeys").Obj
+	var excl *ast.AssignStmt
+	var loop *ast.RangeStmt
+	ast.Inspect(au.Decl.Body, func(x ast.Node) bool {
+		rs, ok := x.(*ast.RangeStmt)
+		if !ok {
+			return true
+		}
+		if call, ok := ast.Unparen(rs.X).(*ast.CallExpr); ok && calleeOf(info, call) == fkMethod {
+			loop = rs
+			ast.Inspect(rs.Body, func(y ast.Node) bool {
+				if as, ok := y.(*ast.AssignStmt); ok && len(as.Lhs) == 1 {
+					if _, isIx := as.Lhs[0].(*ast.IndexExpr); isIx {
+						excl = as
+					}
+				}
+				return true
+			})
+		}
+		return true
+	})
+	if loop == nil || excl == nil {
+		Undecided("AGR-C01u: AdditionalUniqueCols no longer builds its exclusion set from a loop over ForeignKeys()")
+	}
+	conds := condSet(info, pathCondsNoLoop(au, excl), nil)
+	r.cond(len(conds) == 0, "AGR-C01u", au.Name, "every foreign key is excluded from the generic unique selectors", w.Pos(excl.Pos()),
+		"the exclusion set gets every element of ForeignKeys(), unconditionally",
+		"a foreign key is left out of the exclusion set when {"+strings.Join(conds, ", ")+"}: for such a key under a single-column UNIQUE constraint, Select<T>By<Field> is declared both by the foreign-key loop and by generateSelectByUniques (redeclared identifier)")
+	// the foreign-key loops of sqlcrud
+	n := 0
+	for _, fi := range sortedFuncs(w) {
+		if w.Rel(fi.Obj.Pkg()) != "generator/go/sqlcrud" || fi.Decl.Body == nil {
+			continue
+		}
+		finfo := fi.Pkg.TypesInfo
+		ast.Inspect(fi.Decl.Body, func(x ast.Node) bool {
+			rs, ok := x.(*ast.RangeStmt)
+			if !ok {
+				return true
+			}
+			call, ok := ast.Unparen(rs.X).(*ast.CallExpr)
+			if !ok || calleeOf(finfo, call) != fkMethod {
+				return true
+			}
+			v := identOf(rs.Value)
+			if v == nil {
+				return true
+			}
+			subst := map[types.Object]string{finfo.Defs[v]: "$key"}
+			ast.Inspect(rs.Body, func(y ast.Node) bool {
+				sp, ok := y.(*ast.CallExpr)
+				if !ok || fullName(calleeOf(finfo, sp)) != "fmt.Sprintf" || len(sp.Args) == 0 {
+					return true
+				}
+				tv := finfo.Types[sp.Args[0]]
+				if tv.Value == nil || !strings.Contains(constant.StringVal(tv.Value), "func Select%[1]sBy%[2]s(") {
+					return true
+				}
+				n++
+				var cs []string
+				for _, c := range pathConds(fi.Decl, sp) {
+					if c.loop || c.expr == nil || !(rs.Body.Pos() <= c.expr.Pos() && c.expr.End() <= rs.Body.End()) {
+						continue
+					}
+					s := render(finfo, c.expr, subst)
+					if !c.truth {
+						s = "!(" + s + ")"
+					}
+					cs = append(cs, s)
+				}
+				r.cond(len(cs) == 1 && cs[0] == "$key.IsUnique", "AGR-C01u", fi.Name, "Select<T>By<Field> declared for unique foreign keys only", w.Pos(sp.Pos()),
+					"declared under exactly `key.IsUnique`: its domain (unique foreign keys) is inside the set AdditionalUniqueCols excludes",
+					"declared under {"+strings.Join(cs, ", ")+"} instead of exactly `key.IsUnique`: the domain of this declaration and that of generateSelectByUniques are no longer known to be disjoint")
+				return true
+			})
+			return true
+		})
+	}
+	if n < 1 {
+		Undecided("AGR-C01u: no Select<T>By<Field> template found in a foreign-key loop of sqlcrud")
+	}
 }
